@@ -227,5 +227,10 @@ def decomposeDir (dir : Nat) (tol : K) : Nat → Shape K → List (Shape K)
       | some (a, b) => a :: decomposeDir dir tol fuel b
       | none => [S]
 
+/-- `operations.decompose_surface(obj, decompose_dir='uv')`: decomposition in u, then every strip in
+    v, u-major order (fuel: the lengths of the knot vectors, always enough) -/
+def decomposeUV (tol : K) (S : Shape K) : List (Shape K) :=
+  (decomposeDir 0 tol (S.kv 0).length S).flatMap (fun T => decomposeDir 1 tol (T.kv 1).length T)
+
 end
 end Geomdl
